@@ -274,6 +274,39 @@ def check(run):
         if not same:
             run.violation("R8", tp.where, f"triangulate_polygon (earcut) prepares the exterior ring as `{ext}` but each interior as `{inter[0]}`: the rings no longer follow one "
                                           f"convention, so ring offsets / returned vertex indices are off for polygons with holes", key=key_of("C15-R8", "rings"))
+    # ------------------------------------------------------------------ R9 analytic measures of the extrusion
+    run.rule("R9", "Extrusion: area = 2 * profile area + |height| * TOTAL boundary length (exterior and holes), volume = profile area * |height| - as terms of the value graph")
+    from ..dag import Values
+    EX = ix.cls("trimesh.primitives.Extrusion")
+    POLY = "P_self.primitive.polygon"
+    H = "P_self.primitive.height"
+    forms = {
+        "area": ([f"abs({H} * {POLY}.length) + {POLY}.area * 2", f"abs({H}) * {POLY}.length + {POLY}.area * 2", f"abs({H}) * {POLY}.length + {POLY}.area * 2.0",
+                  f"abs({H} * {POLY}.length) + {POLY}.area * 2.0"],
+                 "2 * area(profile) + |height| * length(profile boundary incl. holes)"),
+        "volume": ([f"abs({POLY}.area * {H})", f"{POLY}.area * abs({H})"], "area(profile) * |height|"),
+    }
+    for name, (tpls, what) in forms.items():
+        g_ = EX.getters.get(name) or EX.methods.get(name)
+        if g_ is None:
+            continue
+        Vx = Values(ix, g_)
+        for r_ in Vx.returns():
+            node_ = Vx.value(r_.value, r_)
+            ok = any(Vx.match(t_, node_) is not None for t_ in tpls)
+            if ok:
+                run.instance("R9", g_.where, f"Extrusion.{name} == {what}", True)
+                continue
+            txt_ = Vx.text(node_, 6, 200)
+            # positive evidence of a wrong measure: the boundary length leaves out the holes
+            if name == "area" and ".exterior.length" in txt_ and f"{POLY}.length" not in txt_.replace(".exterior.length", ""):
+                run.instance("R9", g_.where, f"Extrusion.area := `{txt_[:90]}`", False)
+                run.violation("R9", g_.where, f"Extrusion.area uses the length of the exterior ring only (`{txt_[:90]}`): the walls of every hole of the profile are missing from the area",
+                              key=key_of("C15-R9", "area-exterior-only"))
+            else:
+                run.instance("R9", g_.where, f"Extrusion.{name} := `{txt_[:80]}` - not in a recognised form, NOT decided", True, nontrivial=False)
+                run.assume(f"Extrusion.{name}: the analytic formula is not in a recognised form")
+
     return {
         "explanation": "Per primitive class: the defaults table, the constructor's forwarding dict and the parameters read by _create_mesh "
         "(effect analysis through PrimitiveAttributes.__getattr__ into the shared DataStore) must coincide; lazy getters use the "
